@@ -169,10 +169,10 @@ func c18Verify(c c18Case, s geometry.Series) fw.Outcome {
 	}
 	nt := !wantConvex || collinear || dup
 	if got := s.Convex(); got != wantConvex {
-		return fw.Failf(label, "Convex() = %v, exact %v for %s ring %v (scale 2^%d)", got, wantConvex, form, c.Pts, c.Enc.Scale)
+		return rangeKnown("C18", c.Enc.Scale, fw.Failf(label, "Convex() = %v, exact %v for %s ring %v (scale 2^%d)", got, wantConvex, form, c.Pts, c.Enc.Scale))
 	}
 	if got := s.Clockwise(); got != wantCW {
-		return fw.Failf(label, "Clockwise() = %v, exact %v (twice the signed area = %d) for %s ring %v", got, wantCW, area2, form, c.Pts)
+		return rangeKnown("C18", c.Enc.Scale, fw.Failf(label, "Clockwise() = %v, exact %v (twice the signed area = %d) for %s ring %v (scale 2^%d)", got, wantCW, area2, form, c.Pts, c.Enc.Scale))
 	}
 	return fw.OK(label, nt)
 }
@@ -202,7 +202,7 @@ func c18Shrink(c c18Case) []c18Case {
 }
 
 func genEnc(t *rapid.T, n int) adapt.Enc {
-	e := adapt.Enc{Scale: genScale(t), IndexKind: rapid.IntRange(0, 2).Draw(t, "ikind")}
+	e := adapt.Enc{Scale: genScaleX(t), IndexKind: rapid.IntRange(0, 2).Draw(t, "ikind")}
 	e.MinPoints = rapid.SampledFrom([]int{0, 1, n, n + 1, 64}).Draw(t, "minpoints")
 	return e
 }
